@@ -401,8 +401,29 @@ static void run_bool(Src &s) {
   econf_newKeyFile(&kf, '=', '#');
   KG g{kf};
   std::string t;
-  size_t k = s.weighted({25, 30, 25, 20});
+  size_t k = s.weighted({25, 30, 25, 20, 25});
   static const char *words[4] = {"yes", "no", "true", "false"};
+  if (k == 4) {
+    // an accepted spelling as a proper part of the text: word + tail, head + word, word + word, a word cut short
+    static const char *acc[6] = {"yes", "no", "true", "false", "1", "0"};
+    std::string w = acc[s.below(6)];
+    for (auto &c : w)
+      if (s.chance(30)) c = (char)toupper(c);
+    auto junk = [&](int maxn) {
+      std::string j;
+      int n = 1 + (int)s.below((uint32_t)maxn);
+      for (int i = 0; i < n; i++) j += "abdehostxyz019 _-.!"[s.below(19)];
+      return j;
+    };
+    switch (s.below(5)) {
+      case 0: t = w + junk(8); break;
+      case 1: t = junk(4) + w; break;
+      case 2: t = w + acc[s.below(6)]; break;
+      case 3: t = w.substr(0, w.size() - 1); break;
+      default: t = w + std::string(1 + s.below(3), w.back()); break;
+    }
+    g_case.tag("bool_word_extended");
+  } else
   if (k == 0) {
     t = words[s.below(4)];
     for (auto &c : t)
@@ -445,7 +466,56 @@ static void run_bool(Src &s) {
 }
 
 // ------------------------------------------------------------------ keys without value
+// keys of a delimiter-less file (a list of bare words, /etc/shells style) never have a value - whatever their
+// spelling, whatever preceded them
+static void run_novalue_list(Src &s) {
+  static const char *names[10] = {"retry25", "level3e2", "x0x1F", "n-17", "t1", "yes", "true1", "a017", "k+5", "inf"};
+  std::string text;
+  std::vector<std::string> keys;
+  int n = 2 + (int)s.below(6);
+  bool any_comment = false;
+  for (int i = 0; i < n; i++) {
+    std::string k = names[s.below(10)];
+    if (std::find(keys.begin(), keys.end(), k) != keys.end()) continue;
+    keys.push_back(k);
+    size_t tr = s.weighted({55, 25, 20});
+    text += k + (tr == 1 ? " # c" + std::to_string(i) : tr == 2 ? "\t#c" : "") + "\n";
+    any_comment = any_comment || tr != 0;
+    if (s.chance(15)) text += "# whole line\n";
+  }
+  write_file(g_scr.dir + "/nvl.conf", text);
+  econf_file *kf = nullptr;
+  const char *d = s.chance(50) ? "" : "\n";
+  econf_err e = econf_readFile(&kf, (g_scr.dir + "/nvl.conf").c_str(), d, "#");
+  VF_CHECK(e == ECONF_SUCCESS && kf, "harness", "readFile (no delimiter) rc=" << e << " file '" << esc(text) << "'");
+  KG g{kf};
+  g_case.desc = "list of bare keys (no delimiter), file '" + esc(text) + "'";
+  g_case.tag("key_without_value");
+  g_case.tag("bare_key_list");
+  g_case.nontrivial = any_comment;
+  g_case.shape_hash = fnv(text, 9100);
+  g_case.evals = 8 * keys.size();
+  for (auto &k : keys) {
+    int32_t i32 = 42; int64_t i64 = 42; uint32_t u32 = 42; uint64_t u64 = 42; float f = 42; double dd = 42; bool b = true;
+    econf_err r;
+    r = econf_getIntValue(kf, nullptr, k.c_str(), &i32);    VF_CHECK(r != ECONF_SUCCESS, "invented-number", "getInt on bare key '" << k << "' succeeded with " << i32);
+    r = econf_getInt64Value(kf, nullptr, k.c_str(), &i64);  VF_CHECK(r != ECONF_SUCCESS, "invented-number", "getInt64 on bare key '" << k << "' succeeded with " << i64);
+    r = econf_getUIntValue(kf, nullptr, k.c_str(), &u32);   VF_CHECK(r != ECONF_SUCCESS, "invented-number", "getUInt on bare key '" << k << "' succeeded with " << u32);
+    r = econf_getUInt64Value(kf, nullptr, k.c_str(), &u64); VF_CHECK(r != ECONF_SUCCESS, "invented-number", "getUInt64 on bare key '" << k << "' succeeded with " << u64);
+    r = econf_getFloatValue(kf, nullptr, k.c_str(), &f);    VF_CHECK(r != ECONF_SUCCESS, "invented-number", "getFloat on bare key '" << k << "' succeeded with " << f);
+    r = econf_getDoubleValue(kf, nullptr, k.c_str(), &dd);  VF_CHECK(r != ECONF_SUCCESS, "invented-number", "getDouble on bare key '" << k << "' succeeded with " << dd);
+    r = econf_getBoolValue(kf, nullptr, k.c_str(), &b);     VF_CHECK(r != ECONF_SUCCESS || b == false, "invented-value", "getBool on bare key '" << k << "' answered true");
+    char *sv = (char *)-1;
+    r = econf_getStringValue(kf, nullptr, k.c_str(), &sv);
+    bool ok = r == ECONF_SUCCESS && (sv == nullptr || *sv == 0);
+    std::string got = sv && sv != (char *)-1 ? sv : "";
+    if (sv && sv != (char *)-1) free(sv);
+    VF_CHECK(ok, "invented-value", "getString on bare key '" << k << "': rc=" << r << " value '" << esc(got) << "'");
+  }
+}
+
 static void run_novalue(Src &s) {
+  if (s.chance(50)) return run_novalue_list(s);
   size_t form = s.below(4);
   static const char *forms[4] = {"[N]\nv\n", "[N]\nv=\n", "[N]\nv \n", "[N]\nv =\n"};
   write_file(g_scr.dir + "/nv.conf", forms[form]);
@@ -474,7 +544,7 @@ static void run_novalue(Src &s) {
 }
 
 static void run(Src &s) {
-  size_t w = s.weighted({40, 32, 22, 6});
+  size_t w = s.weighted({40, 32, 22, 8});
   if (w == 0) {
     g_case.tag("sub_integer");
     run_integer(s);
